@@ -271,15 +271,15 @@ theorem doc_no_step (fuel : Nat) (d : Loc) (hd : d.isDocument = true) : stepBack
   have hpath : d.path = [] := by simpa [Loc.isDocument] using hd
   simp [stepBack, Loc.prevSibling, Loc.precedingSiblings, Loc.parent?, Loc.parent, hpath]
 
-theorem doc_no_match (sp : StripFn) (f : Option Test) (c : Test) (d : Loc) (hd : d.isDocument = true) :
+theorem doc_no_match (sp : StripFn) (f : Option Pat) (c : Pat) (d : Loc) (hd : d.isDocument = true) :
     fromMatches sp f d = false ∧ patMatches sp c d = false := by
   constructor
   · cases f with
     | none => rfl
-    | some t => simp [fromMatches, patMatches, hd]
-  · simp [patMatches, hd]
+    | some t => simp [fromMatches, patMatches, t.doc sp d hd]
+  · simp [patMatches, c.doc sp d hd]
 
-theorem getPrev_doc (sp : StripFn) (c : Test) (f : Option Test) (fuel : Nat) (d : Loc) (hd : d.isDocument = true) :
+theorem getPrev_doc (sp : StripFn) (c : Pat) (f : Option Pat) (fuel : Nat) (d : Loc) (hd : d.isDocument = true) :
     getPreviousNodeAny sp c f fuel d = none := by
   cases fuel with
   | zero => rfl
@@ -287,7 +287,7 @@ theorem getPrev_doc (sp : StripFn) (c : Test) (f : Option Test) (fuel : Nat) (d 
     unfold getPreviousNodeAny
     simp [doc_no_step n d hd]
 
-theorem getPrev_eq_findStop (sp : StripFn) (c : Test) (f : Option Test) : ∀ (fuel : Nat) (l : Loc),
+theorem getPrev_eq_findStop (sp : StripFn) (c : Pat) (f : Option Pat) : ∀ (fuel : Nat) (l : Loc),
     l.before.length < fuel →
     getPreviousNodeAny sp c f fuel l = findStop (fromMatches sp f) (patMatches sp c) l.before
   | 0, _, h => by omega
@@ -314,7 +314,7 @@ theorem getPrev_eq_findStop (sp : StripFn) (c : Test) (f : Option Test) : ∀ (f
         · rfl
       · rfl
 
-theorem findTarget_doc (sp : StripFn) (c : Test) (f : Option Test) (fuel : Nat) (b : Bool) (d : Loc)
+theorem findTarget_doc (sp : StripFn) (c : Pat) (f : Option Pat) (fuel : Nat) (b : Bool) (d : Loc)
     (hd : d.isDocument = true) : findTargetAny sp c f fuel b d = none := by
   cases fuel with
   | zero => rfl
@@ -322,7 +322,7 @@ theorem findTarget_doc (sp : StripFn) (c : Test) (f : Option Test) (fuel : Nat) 
     unfold findTargetAny
     simp [(doc_no_match sp f c d hd).1, (doc_no_match sp f c d hd).2, doc_no_step n d hd]
 
-theorem findTarget_eq (sp : StripFn) (c : Test) (f : Option Test) : ∀ (fuel : Nat) (l : Loc) (b : Bool),
+theorem findTarget_eq (sp : StripFn) (c : Pat) (f : Option Pat) : ∀ (fuel : Nat) (l : Loc) (b : Bool),
     l.before.length < fuel →
     findTargetAny sp c f fuel b l =
       if !b && fromMatches sp f l then none
@@ -380,7 +380,7 @@ theorem findStop_some (stop mt : Loc → Bool) : ∀ (L : List Loc) (p : Loc), f
         exact ⟨[], xs, rfl, hm, by simp [List.takeWhile_cons, hs, List.filter_cons, hm]⟩
     · simp [hs] at h
 
-theorem chainLength_eq (sp : StripFn) (c : Test) (f : Option Test) : ∀ (fuel : Nat) (t : Loc),
+theorem chainLength_eq (sp : StripFn) (c : Pat) (f : Option Pat) : ∀ (fuel : Nat) (t : Loc),
     t.before.length + 1 < fuel →
     chainLength sp c f fuel t
       = 1 + ((t.before.takeWhile fun x => !fromMatches sp f x).filter (patMatches sp c)).length
@@ -401,7 +401,7 @@ theorem chainLength_eq (sp : StripFn) (c : Test) (f : Option Test) : ∀ (fuel :
       omega
 
 /-- the walk computes the Recommendation's count, with or without `from` -/
-theorem numberAny_eq_spec (sp : StripFn) (c : Test) (f : Option Test) (fuel : Nat) (l : Loc)
+theorem numberAny_eq_spec (sp : StripFn) (c : Pat) (f : Option Pat) (fuel : Nat) (l : Loc)
     (h : l.before.length + 1 < fuel) :
     numberAny sp c f fuel l = numberAnySpec sp c f l := by
   unfold numberAny numberAnySpec
